@@ -2,7 +2,8 @@ CONSTANTS
  NS <- TraceNS
  NV <- TraceNV
  Batches <- TraceBatches
- Proviso = TRUE
+ Proviso <- TraceProviso
+ Getter <- TraceGetter
  Slack <- TraceSlack
 SPECIFICATION TraceSpec
 CONSTRAINT Progress
